@@ -1212,6 +1212,14 @@ def runlength_encode(data: Union[bytes, bytearray]) -> bytearray:
     return result
 
 
+def _pack_model_name(name: str) -> bytes:
+    """Encode a static/detail prop model name into its fixed-size 128-byte field."""
+    data = name.encode('ascii', 'surrogateescape')
+    if len(data) > 128:
+        raise OverflowError(f'Model name "{name}" exceeds 128 character limit')
+    return struct.pack('<128s', data)
+
+
 class ParsedLump(Generic[T]):
     """Allows access to parsed versions of lumps.
 
@@ -3231,7 +3239,7 @@ class BSP:
         prop_lump = BytesIO()
         prop_lump.write(struct.pack('<i', len(model_list)))
         for name in model_list:
-            prop_lump.write(struct.pack('<128s', name.encode('ascii', 'surrogateescape')))
+            prop_lump.write(_pack_model_name(name))
 
         prop_lump.write(struct.pack('<i', len(leaf_array)))
         prop_lump.write(write_array(self.lump_layout['STATICPROPLEAF'], leaf_array))
@@ -3480,7 +3488,7 @@ class BSP:
         # Now build the complete lump.
         yield struct.pack('<i', len(models))
         for name in models:
-            yield struct.pack('<128s', name.encode('ascii', 'surrogateescape'))
+            yield _pack_model_name(name)
         yield struct.pack('<i', len(sprites))
         spr_format = struct.Struct('<8f')
         for spr in sprites:
